@@ -19,7 +19,7 @@ def bitstr(b):
 
 # ---------------------------------------------------------------- generators
 SRC_KINDS = ["null", "nodl", "dl30", "dl70", "dl110", "expired"]
-DL_OPT = {"nodl": 0, "dl30": 50, "dl70": 90, "dl110": 130, "expired": 10}
+DL_OPT = {"nodl": 0, "dl30": 50, "dl70": 90, "dl110": 130, "expired": 10, "dlmax": 2147483647, "dl1": 1}
 TIMEOUTS = [0, 20, 60, 200, INFINITE]
 ACT_TIMES = [None, 25, 45, 85, 125, 215]
 
@@ -104,7 +104,7 @@ def gen_c08(tier, seed):
     for _ in range(extra):
         r = rng_for(seed, "c08x", idx)
         n = r.randint(3, 5)
-        kinds = tuple(r.choice(SRC_KINDS) for _ in range(n))
+        kinds = tuple(r.choice(SRC_KINDS * 3 + ["dlmax", "dlmax", "dl1"]) for _ in range(n))
         if all(k == "null" for k in kinds):
             kinds = kinds[:-1] + ("nodl",)
         at = r.choice(ACT_TIMES)
@@ -235,7 +235,10 @@ def gen_c09(tier, seed):
                 if r.random() < 0.15:
                     src.append((-1, r.randrange(16)))
                 else:
-                    src.append((r.randrange(nh), r.randrange(16) if r.random() < 0.7 else r.choice([EV_OUT | EV_ERR, EV_EXIT, EV_IN])))
+                    it = r.randrange(16) if r.random() < 0.7 else r.choice([EV_OUT | EV_ERR, EV_EXIT, EV_IN])
+                    if r.random() < 0.15:
+                        it |= r.choice([16, 32, 48, 1 << 20])  # bits that are not pollable interests
+                    src.append((r.randrange(nh), it))
             to = r.choice([0, 0, 30, 30, 100])
             parts.append("PLP %d %d %s" % (to, ns, " ".join("%s %d" % (h if h >= 0 else "-", it) for h, it in src)))
             polls.append({"to": to, "src": src})
